@@ -43,13 +43,17 @@ package scorch
 //@   modifies prealloc.lseg, prealloc.lfield, prealloc.lterm, prealloc.lexcept
 //@   ensures implies(result1 == nil, result0 != nil && (emptyPL(result0) || ((fresh(result0) || (prealloc != nil && result0 == prealloc)) && !emptyDict(d) && \
 //@             result0.lseg == d.dseg && result0.lfield == d.dfield && result0.lterm == termKey(term) && result0.lexcept == except)))
+// the documents an iterator enumerates lie below its segment's document count
+//@ spec itDocsOK(it segment.PostingsIterator) bool = all(x, uint64, implies(it.pdocs[x], x < segCount(it)))
 //@ assume func segment.PostingsList.Iterator(pl, includeFreq, includeNorm, includeLocs, prealloc)
 //@   requires pl != nil
-//@   modifies prealloc.iseg, prealloc.ifield, prealloc.iterm, prealloc.iexcept, prealloc.pstarted, prealloc.plast, prealloc.pdone
+//@   modifies prealloc.iseg, prealloc.ifield, prealloc.iterm, prealloc.iexcept, prealloc.pstarted, prealloc.plast, prealloc.pdone, prealloc.pdocs, prealloc.pfrom
 //@   ensures result != nil && !result.pstarted && (emptyIt(result) || ((fresh(result) || (prealloc != nil && result == prealloc)) && !emptyPL(pl) && !result.pdone && \
 //@             result.iseg == pl.lseg && result.ifield == pl.lfield && result.iterm == pl.lterm && result.iexcept == pl.lexcept && segCount(result) == segDocs(pl.lseg)))
 // (the shared empty iterator is never reused as prealloc, and it is never started)
 //@   ensures implies(prealloc != nil && emptyIt(prealloc), prealloc.pstarted == old(prealloc.pstarted))
+// set level: the documents the iterator enumerates lie below the segment's count, nothing has been passed yet (the shared empty iterator is not part of a reader's document set)
+//@   ensures implies(!emptyIt(result), result.pfrom == 0 && itDocsOK(result))
 
 // the field a term dictionary is opened for: a field whose index data was dropped by an update
 // of the mapping reads as the empty field
@@ -86,10 +90,11 @@ package scorch
 //@   modifies is.fieldTFRs, map(is.fieldTFRs), IndexSnapshotTermFieldReader.gstarted, fields(IndexSnapshotTermFieldReader), mem(segment.TermDictionary), mem(segment.PostingsList), mem(segment.PostingsIterator), SegmentSnapshot.mmaped, \
 //@            segment.PostingsList.lseg, segment.PostingsList.lfield, segment.PostingsList.lterm, segment.PostingsList.lexcept, \
 //@            segment.PostingsIterator.iseg, segment.PostingsIterator.ifield, segment.PostingsIterator.iterm, segment.PostingsIterator.iexcept, segment.PostingsIterator.ppos, \
-//@            segment.PostingsIterator.pstarted, segment.PostingsIterator.plast, segment.PostingsIterator.pdone
+//@            segment.PostingsIterator.pstarted, segment.PostingsIterator.plast, segment.PostingsIterator.pdone, segment.PostingsIterator.pdocs, segment.PostingsIterator.pfrom, IndexSnapshotTermFieldReader.glb
 //@   at call pl.Iterator#0 after: ghost result.ppos = i
 // (a recycled reader starts over: its ghost cursor is reset)
 //@   at call is.allocTermFieldReaderDicts#0 after: ghost result.gstarted = false
+//@   at call is.allocTermFieldReaderDicts#0 after: ghost result.glb = 0
 //@   ensures implies(result1 == nil, result0 != nil && typeis(result0, *IndexSnapshotTermFieldReader) && rdr(result0) != nil && rdr(result0).snapshot == is && rdr(result0).field == field && rdr(result0).term == term)
 // C02: every iterator is bound to its segment, the field, the term and the segment's deletions
 //@   ensures implies(result1 == nil, len(rdr(result0).iterators) == len(is.segment) && forall(k, 0, len(is.segment), rdr(result0).iterators[k] != nil && itBound(is, rdr(result0), k, field, termKey(term))))
@@ -102,6 +107,7 @@ package scorch
 //@   ensures implies(result1 == nil, forall(k, 0, len(is.segment)-1, is.offsets[k] + segCount(rdr(result0).iterators[k]) <= is.offsets[k+1]))
 //@   ensures implies(result1 == nil, tfrShape(rdr(result0)))
 //@   ensures implies(result1 == nil, tfrCursor(rdr(result0)))
+//@   ensures implies(result1 == nil, tfrSet(rdr(result0)))
 //@   ensures implies(result1 == nil, rdr(result0).includeFreq == includeFreq && rdr(result0).includeNorm == includeNorm && rdr(result0).includeTermVectors == includeTermVectors)
 //@   loop 0: invariant rv != nil && rv.snapshot == is && len(rv.dicts) == len(is.segment) && len(rv.postings) == len(is.segment) && len(rv.iterators) == len(is.segment) && rv.segmentOffset == 0 && rv.currPosting == nil
 //@   loop 0: invariant forall(k, 0, iter, rv.dicts[k] != nil && (emptyDict(rv.dicts[k]) || (rv.dicts[k].dseg == is.segment[k].segment && fieldIs(is, rv.dicts[k].dfield, field))))
@@ -111,6 +117,9 @@ package scorch
 //@   loop 1: invariant forall(k, 0, len(rv.dicts), rv.dicts[k] != nil && (emptyDict(rv.dicts[k]) || (rv.dicts[k].dseg == is.segment[k].segment && fieldIs(is, rv.dicts[k].dfield, field))))
 //@   loop 1: invariant forall(k, iter, len(rv.iterators), rv.iterators[k] == nil || emptyIt(rv.iterators[k]) || (rv.iterators[k].ppos == k && segCount(rv.iterators[k]) == segDocs(is.segment[k].segment)))
 //@   loop 1: invariant forall(k, 0, iter, rv.iterators[k] != nil && !rv.iterators[k].pstarted && itBound(is, rv, k, field, termKey(term)) && (emptyIt(rv.iterators[k]) || (rv.iterators[k].ppos == k && segCount(rv.iterators[k]) == segDocs(is.segment[k].segment) && !rv.iterators[k].pdone)))
+//@   loop 1: invariant rv.glb == 0 && !rv.gstarted
+//@   loop 1: invariant forall(k, 0, iter, implies(!emptyIt(rv.iterators[k]), rv.iterators[k].pfrom == 0))
+//@   loop 1: invariant forall(k, 0, iter, implies(!emptyIt(rv.iterators[k]), itDocsOK(rv.iterators[k])))
 //@   loop 1: invariant rv.field == field && rv.term == term && rv.includeFreq == includeFreq && rv.includeNorm == includeNorm && rv.includeTermVectors == includeTermVectors
 
 // a statistics counter (wrap-around of the byte count is harmless and not what C02 / C08 are about)
